@@ -23,7 +23,9 @@ Classes == {"BadAddrType",           \* address type byte not one of the protoco
             "NonUtf8Domain",         \* domain bytes that are not UTF-8
             "ChunkShorterThanPadding", \* VMess body chunk: declared length smaller than the padding drawn for it (+ tag)
             "ChunkShorterThanTag",   \* VMess body chunk: declared length smaller than an authentication tag
-            "ExtremeTimestamp",      \* Shadowsocks 2022: a well-sealed header whose 64-bit timestamp is 0, 2^63 - 1, 2^63 or 2^64 - 1
+            "ExtremeTimestamp",      \* Shadowsocks 2022: a well-sealed header whose 64-bit timestamp is 0, 2^63 - 1, 2^63 or 2^64 - 1;
+                                     \* VMess: a well-formed request under an auth-id stamped at the ends of the signed 64-bit range
+                                     \* or where its distance from the server's clock does not fit that range
             "UnusualOptions"}        \* VMess request header, well formed, with an option mask / security code the real client never
                                      \* sends (no option at all, unknown bits, unknown cipher code): the server may serve or refuse
                                      \* it, and writing its first answer for such a request is part of handling it
@@ -34,7 +36,7 @@ HasLen(d)     == d \in {"trojan-udp-c2s", "trojan-udp-s2c"}
 IsBody(d) == d \in {"vmess-req-body", "vmess-resp-body"}
 Applies(d, c) == /\ (IsBody(d) <=> c \in {"ChunkShorterThanPadding", "ChunkShorterThanTag"})
                  /\ (c = "UnusualOptions" => d = "vmess-req-header")
-                 /\ (c = "ExtremeTimestamp" <=> d \in {"ss2022-req", "ss2022-resp", "ss2022-udp-c2s", "ss2022-udp-s2c"} /\ c = "ExtremeTimestamp")
+                 /\ (c = "ExtremeTimestamp" <=> d \in {"ss2022-req", "ss2022-resp", "ss2022-udp-c2s", "ss2022-udp-s2c", "vmess-req-header"} /\ c = "ExtremeTimestamp")
                  /\ (d = "ss2022-resp" => c = "ExtremeTimestamp")
                  \* the response header is one sealed unit of four fixed bytes: it can only be too short
                  /\ (d = "vmess-resp-header" => c \in {"Empty", "ShorterThanFixed"})
